@@ -126,6 +126,33 @@ func (w *World) signer(s string) string {
 }
 
 // Exec runs one event on the world and returns its result. It never panics for reasons inside the code under test.
+// resolve replaces the symbolic amount "bal" of an Undelegate / Redelegate by the balance the module reports for that
+// position right now, so that the recorded event carries the concrete amount
+func (w *World) resolve(e Event) Event {
+	if e.X != "bal" || (e.Ev != "Undelegate" && e.Ev != "Redelegate") {
+		return e
+	}
+	v := e.V
+	if e.Ev == "Redelegate" {
+		v = e.Src
+	}
+	e.X = "1"
+	for _, p := range w.positions(w.Ctx) {
+		if w.Name(p.d.String()) == e.D && w.Name(p.v.String()) == v && p.a == e.A && p.balOk && p.bal.IsPositive() {
+			e.X = p.bal.String()
+		}
+	}
+	return e
+}
+
+// valOrGhost maps a name that is not a validator of this world to a well-formed address no validator has
+func (w *World) valOrGhost(n string) sdk.ValAddress {
+	if v, ok := w.ValByName(n); ok {
+		return v
+	}
+	return sdk.ValAddress([]byte("no-such-validator-00"))
+}
+
 func (w *World) Exec(e Event) Result {
 	r := w.exec(e)
 	r.ErrC = errClass(r.Err)
@@ -151,29 +178,29 @@ func (w *World) exec(e Event) Result {
 
 	case "Delegate":
 		d, _ := w.DelByName(e.D)
-		v, _ := w.ValByName(e.V)
+		v := w.valOrGhost(e.V)
 		return w.atomic(func(ctx sdk.Context) error {
 			_, err := w.MS.Delegate(ctx, types.NewMsgDelegate(d.String(), v.String(), sdk.NewCoin(e.A, mustInt(e.X))))
 			return err
 		})
 	case "Undelegate":
 		d, _ := w.DelByName(e.D)
-		v, _ := w.ValByName(e.V)
+		v := w.valOrGhost(e.V)
 		return w.atomic(func(ctx sdk.Context) error {
 			_, err := w.MS.Undelegate(ctx, types.NewMsgUndelegate(d.String(), v.String(), sdk.NewCoin(e.A, mustInt(e.X))))
 			return err
 		})
 	case "Redelegate":
 		d, _ := w.DelByName(e.D)
-		s, _ := w.ValByName(e.Src)
-		t, _ := w.ValByName(e.Dst)
+		s := w.valOrGhost(e.Src)
+		t := w.valOrGhost(e.Dst)
 		return w.atomic(func(ctx sdk.Context) error {
 			_, err := w.MS.Redelegate(ctx, types.NewMsgRedelegate(d.String(), s.String(), t.String(), sdk.NewCoin(e.A, mustInt(e.X))))
 			return err
 		})
 	case "Claim":
 		d, _ := w.DelByName(e.D)
-		v, _ := w.ValByName(e.V)
+		v := w.valOrGhost(e.V)
 		return w.atomic(func(ctx sdk.Context) error {
 			_, err := w.MS.ClaimDelegationRewards(ctx, types.NewMsgClaimDelegationRewards(d.String(), v.String(), e.A))
 			return err
